@@ -903,11 +903,11 @@ fn join_chunks(chunks: Vec<Chunk>, options: &FormattingOptions) -> String {
                     }
                 } else {
                     // If the line only consists of comments, move them to the 'code' column
-                    if line.len() > options.whitespace.label_margin + options.whitespace.code_margin
-                    {
-                        let (label_code, comment) = line.split_at(
-                            options.whitespace.label_margin + options.whitespace.code_margin,
-                        );
+                    let comment_column =
+                        options.whitespace.label_margin + options.whitespace.code_margin;
+                    // (A multi-byte character that straddles the comment column means there is text in front of it)
+                    if line.len() > comment_column && line.is_char_boundary(comment_column) {
+                        let (label_code, comment) = line.split_at(comment_column);
                         if label_code.trim().is_empty() {
                             line = format!(
                                 "{:<width$}{}",
